@@ -400,7 +400,47 @@ def gen_case(rng, idx, quick, kind=None):
     # for every element and for each of the two phases of the scripted thermodynamics object
     c['user_fn'] = {ph: {'A': [float(10 ** rng.uniform(-12, -4)) for _ in els], 'Q': [float(rng.uniform(5e4, 3e5)) for _ in els]} for ph in PHASES}
     c['user_fn']['order'] = [int(i) for i in rng.permutation(n)]
+    c['arrays'] = gen_arrays(rng, c)
     return c
+
+
+def gen_arrays(rng, c):
+    """array calls of getInterdiffusivity / getTracerDiffusivity on a thermodynamics object whose single-point answer is a
+    known function of (x, T): a regular solution of the substitutional elements of the case, user functions as mobilities.
+    Scenarios: separated points; fine temperature ramps; slowly drifting compositions; repeated points; one composition
+    with many temperatures and the reverse; incompatible lengths"""
+    els = c['elements']
+    subs = [e for e, it in zip(els, c['inter']) if not it]
+    if len(subs) < 2 or c['inter'][c['ref']]:
+        return None
+    user = [els[c['ref']]] + [e for e in c['user_solutes'] if e in subs]
+    ns = len(user) - 1
+    reg = {'G': [float(rng.uniform(-2e4, 2e4)) for _ in subs],
+           'L': [[float(rng.uniform(-1, 1) * rng.choice([2e3, 8e3])) if j > i else 0.0 for j in range(len(subs))] for i in range(len(subs))]}
+
+    def base():
+        w = rng.dirichlet(np.ones(ns + 1) * 2.0) * 0.9 + 0.1 / (ns + 1)
+        return [float(v) for v in w[1:]], float(rng.uniform(600, 1500))
+    scen = []
+    x0, T0 = base()
+    pts = [base() for _ in range(3)]
+    scen.append({'kind': 'separated', 'x': [p[0] for p in pts], 'T': [p[1] for p in pts]})
+    m = int(rng.integers(3, 7))
+    dT = float(10 ** rng.uniform(-3.5, -1.7)) * float(rng.choice([-1, 1]))
+    scen.append({'kind': 'T_ramp', 'x': [list(x0)] * m, 'T': [T0 + k * dT for k in range(m)]})
+    scen.append({'kind': 'T_ramp_one_x', 'x': [list(x0)], 'T': [T0 + k * dT for k in range(m)]})
+    x1, T1 = base()
+    dx = float(10 ** rng.uniform(-9, -6.3))
+    j = int(rng.integers(0, ns))
+    drift = [[v + (k * dx if i == j else 0.0) for i, v in enumerate(x1)] for k in range(m)]
+    scen.append({'kind': 'x_drift', 'x': drift, 'T': [T1] * m})
+    scen.append({'kind': 'x_drift_one_T', 'x': drift, 'T': [T1]})
+    scen.append({'kind': 'repeats', 'x': [x0, x0, x1, x1, x0], 'T': [T0, T0, T1, T1 * (1 + 2e-6), T0]})
+    scen.append({'kind': 'single', 'x': [x0], 'T': [T0]})
+    scen.append({'kind': 'mismatch', 'x': [x0, x1, x0], 'T': [T0, T1]})
+    for sc in scen:
+        sc['removeCache'] = bool(rng.random() < 0.5)
+    return {'subs': subs, 'user': user, 'reg': reg, 'scenarios': scen}
 
 
 def dxdy_y_full(rng, dxdy_y, nsv):
@@ -588,6 +628,162 @@ def run_setters(c):
     return recs
 
 
+def reg_point(ar, user, xsol, T):
+    """regular solution  G = sum y G_i + RT sum y ln y + sum_{i<j} L_ij y_i y_j  of the substitutional elements at the
+    composition xsol (solutes, user order) and temperature T -> the composition-set data a phase record would supply"""
+    subs = ar['subs']
+    yu = [1.0 - float(np.sum(xsol))] + [float(v) for v in np.ravel(xsol)]
+    y = np.array([yu[user.index(e)] for e in subs])
+    ph = StubPhase(subs, [], 1.0, 1.0, ar['reg']['G'], [], ar['reg']['L'], [[] for _ in subs], T, False)
+    g, H = ph.grad_hess(list(y), [])
+    mu = g - float(y @ g) + (float(np.dot(y, ar['reg']['G'])) + RGAS * T * float(np.sum(y * np.log(y))) + float(y @ np.array(ar['reg']['L']) @ y))
+    p = len(subs)
+    d2g = np.full((4 + p, 4 + p), 11.0)
+    d2g[4:, 4:] = H
+    dxdy = np.full((p, 4 + p), -5.0)
+    dxdy[:, 4:] = np.eye(p)
+    cons = np.zeros((1, 4 + p))
+    cons[0, 4:] = 1.0
+    return {'elements': subs, 'svs': ['GE', 'N', 'P', 'T'], 'variables': [(e, 0) for e in subs], 'dof': [0.0, 1.0, 101325.0, float(T)] + [float(v) for v in y],
+            'X': [float(v) for v in y], 'd2g': d2g.tolist(), 'dg': [0.0] * 4 + [float(v) for v in g], 'dxdy': dxdy.tolist(),
+            'moleA': [float(v) for v in y], 'cons': cons.tolist(), 'mu': [float(v) for v in mu]}
+
+
+def reg_expected(c, xsol, T):
+    """closed form, no kawin code: tracer = R T M_e(T); interdiffusivity = (volume-fixed Onsager matrix) * (second
+    derivative of G with respect to the solute fractions, reference compensating) - Darken's relation for a binary"""
+    ar = c['arrays']
+    user, subs, els = ar['user'], ar['subs'], c['elements']
+    corr = corr_vec(c)
+    Xu = np.array([1.0 - float(np.sum(xsol))] + [float(v) for v in np.ravel(xsol)])
+    Mu = np.array([corr[els.index(e)] * user_value(c, 'MATRIX', els.index(e), T) for e in user])
+    Lr = np.array(ar['reg']['L'])
+    Lr = Lr + Lr.T
+    iu = [subs.index(e) for e in user]
+    ns = len(user) - 1
+    H = np.zeros((ns, ns))
+    for a in range(1, ns + 1):
+        for b in range(1, ns + 1):
+            H[a - 1, b - 1] = RGAS * T * ((1.0 / Xu[a] if a == b else 0.0) + 1.0 / Xu[0]) + (Lr[iu[a], iu[b]] if a != b else 0.0) - Lr[iu[a], iu[0]] - Lr[iu[b], iu[0]]
+    Lo = np.array([[sum(((1.0 if a == i else 0.0) - Xu[a]) * ((1.0 if b == i else 0.0) - Xu[b]) * Xu[i] * Mu[i] for i in range(ns + 1))
+                    for b in range(1, ns + 1)] for a in range(1, ns + 1)])
+    return RGAS * T * Mu, Lo @ H
+
+
+def run_arrays(c):
+    """array calls through the public getters; the local equilibrium is scripted as a function of (x, T)"""
+    from kawin.thermo.Thermodynamics import GeneralThermodynamics
+    ar = c.get('arrays')
+    if not ar:
+        return None
+    user, els = ar['user'], c['elements']
+
+    class _T(GeneralThermodynamics):
+        def __init__(self):
+            self.elements = user + ['VA']
+            self.numElements = len(user)
+            self.phases = ['MATRIX']
+            self._diffusivity_cache = {}
+            self.mobCallables = {'MATRIX': None}
+            self.diffCallables = {'MATRIX': None}
+            self.mobility_correction = {e: f for e, f in zip(els, corr_vec(c))}
+            self.mobility_correction['VA'] = 1
+            self.vacancyPoorInterstitialSublattice = {}
+            self._parameters = {}
+            self.points = []
+
+        def getLocalEq(self, x, T, gExtra=0, precPhase=None, composition_sets=None):
+            self.points.append(([float(v) for v in np.ravel(x)], float(T)))
+            d = reg_point(ar, user, np.ravel(x), float(T))
+            return types.SimpleNamespace(chemical_potentials=np.array(d['mu'])), [FakeCS(d)]
+
+    th = _T()
+    th.setMobility({e: user_function(c, 'MATRIX', els.index(e)) for e in user}, 'MATRIX')
+    ns = len(user) - 1
+    recs = []
+    for sc in ar['scenarios']:
+        xs = [list(v) for v in sc['x']]
+        xarg = [v[0] for v in xs] if ns == 1 else xs          # binary: an array of numbers; multicomponent: rows
+        if ns == 1 and len(xs) == 1:
+            xarg = xs[0][0]
+        Targ = sc['T'] if len(sc['T']) > 1 else sc['T'][0]
+        rec = {'kind': sc['kind'], 'lx': len(xs), 'lT': len(sc['T']), 'err': None}
+        for name, fn in (('D', th.getInterdiffusivity), ('tr', th.getTracerDiffusivity)):
+            try:
+                th.points = []
+                out = np.array(fn(xarg, Targ, removeCache=sc['removeCache']), float)
+                rec[name] = out.tolist()
+                rec[name + '_points'] = th.points
+            except Exception as e:
+                rec[name] = None
+                rec[name + '_err'] = err_enum(e)
+        recs.append(rec)
+    return recs
+
+
+def array_terms(c, im):
+    return ['(array_shape %d%%nat %d%%nat, array_points %d%%nat %d%%nat)' % (r['lx'], r['lT'], r['lx'], r['lT']) for r in (im.get('arr') or [])]
+
+
+def array_oracle(c, im, model=None):
+    """every entry of an array call is the closed-form value AT ITS OWN POINT; the number of entries and the points they belong
+    to are those of the model (Coq: array_query); -> (clause, site, cls, message)"""
+    v = []
+    ar = c.get('arrays')
+    recs = im.get('arr')
+    if not ar or not recs:
+        return v
+    ns = len(ar['user']) - 1
+    seen = set()
+    for k, (sc, rec) in enumerate(zip(ar['scenarios'], recs)):
+        lx, lT = rec['lx'], rec['lT']
+        if lx == lT:
+            pts = [(i, i) for i in range(lx)]
+        elif lx == 1:
+            pts = [(0, j) for j in range(lT)]
+        elif lT == 1:
+            pts = [(i, 0) for i in range(lx)]
+        else:
+            pts = None
+        if model is not None:
+            mshape, mpts = model[k]
+            mp = None if mpts is None else [tuple(int(q) for q in pq) for pq in mpts[1]]
+            if mp != pts or (mshape is None) != (pts is None):
+                v.append(('correspondence', 'harness', 'array_points', 'harness and Coq model disagree on the points of an array call (%d, %d): %r vs %r' % (lx, lT, pts, mp)))
+        for name, what in (('D', 'getInterdiffusivity'), ('tr', 'getTracerDiffusivity')):
+            got = rec[name]
+            if pts is None:
+                if got is not None or rec.get(name + '_err') != 'ValueError':
+                    v.append(('array_pointwise', SITE_T, what + ' incompatible lengths', '%s with %d compositions and %d temperatures: expected ValueError, got %r' % (what, lx, lT, rec.get(name + '_err') or got)))
+                continue
+            if got is None:
+                if rec.get(name + '_err') != 'LinAlgError':
+                    v.append(('no_internal_error', SITE_T, what + ' array', '%s (%s) raised %s' % (what, sc['kind'], rec.get(name + '_err'))))
+                continue
+            N = len(pts)
+            got = np.array(got, float).reshape((N, ns, ns) if name == 'D' else (N, ns + 1)) if np.size(got) == (N * ns * ns if name == 'D' else N * (ns + 1)) else None
+            if got is None:
+                v.append(('array_pointwise', SITE_T, what + ' shape', '%s (%s): %d points asked, output of size %d' % (what, sc['kind'], N, int(np.size(rec[name])))))
+                continue
+            for n_, (i, j) in enumerate(pts):
+                x, T = sc['x'][i], sc['T'][j]
+                tr, D = reg_expected(c, x, T)
+                want = D if name == 'D' else tr
+                err = float(np.max(np.abs(got[n_] - want)) / np.max(np.abs(want)))
+                if err > 1e-11 and (what, sc['kind']) not in seen:
+                    seen.add((what, sc['kind']))
+                    prev = ''
+                    for m_ in range(n_):
+                        if np.array_equal(got[n_], got[m_]):
+                            prev = ' (it is the value returned for point %d: x=%r, T=%r)' % (m_, sc['x'][pts[m_][0]], sc['T'][pts[m_][1]])
+                            break
+                    v.append(('array_pointwise', SITE_T, what + ' ' + sc['kind'],
+                              '%s array call (%s, removeCache=%r), point %d of %d (x=%r, T=%r, elements %r): returned %r, %s at this point = %r, relative difference %.3g%s'
+                              % (what, sc['kind'], sc['removeCache'], n_, N, x, T, ar['user'], got[n_].tolist(),
+                                 'Onsager matrix * curvature (Darken)' if name == 'D' else 'R*T*M', np.array(want).tolist(), err, prev)))
+    return v
+
+
 def setter_oracle(c, im):
     """tracer diffusivity of element e = R*T*M_e (or D_e) computed from the function the user attached to e in the phase
     that was asked for; interdiffusivity from those same functions; Darken for a binary; -> (clause, site, cls, message)"""
@@ -713,6 +909,8 @@ def run_impl(c):
         out['trd_user'] = np.atleast_1d(np.array(th.getTracerDiffusivity(x if len(x) > 1 else x[0], c['T'])))
         if 'user_fn' in c:
             out['sp'] = run_setters(c)
+        if c.get('arrays'):
+            out['arr'] = run_arrays(c)
     except Exception as e:
         out['wrap_err'] = err_enum(e) + ': ' + str(e)[:200]
         # inverseMobility inverts the interdiffusivity: LinAlgError means that matrix is singular (undefined curvature,
@@ -766,7 +964,9 @@ def model_terms(c, im):
         t_ro = 'check_reorder %s %s %s %s %s %s' % (
             natlist(elem_code(e) for e in c['user_solutes']), natlist(elem_code(e) for e in user_all),
             fmat(im['D']), fvec(im['tr']), fmat(im['D_user']), fvec(im['tr_user']))
-    return [t_mob, t_fh, t_ro, t_df, t_ro2]
+    at = array_terms(c, im)
+    t_arr = '[' + '; '.join(at) + ']' if at else '(@nil (option nat * option (list (nat * nat))))'
+    return [t_mob, t_fh, t_ro, t_df, t_ro2, t_arr]
 
 
 def compare(c, im, vals):
@@ -898,6 +1098,8 @@ def oracle(c, im):
         return v
     # (5) functions attached through the public setters, and the phase= argument
     v += setter_oracle(c, im)
+    # (6) array calls: every entry belongs to its own point
+    v += array_oracle(c, im, im.get('arr_model'))
     user_all = [els[r]] + list(c['user_solutes'])
     for k, e in enumerate(user_all):
         want = RGAS * c['T'] * M[els.index(e)]
@@ -929,11 +1131,12 @@ def explore(ctx, cases, label):
     terms = []
     for i in ok_idx:
         terms += model_terms(cases[i], impls[i])
-    vals = ctx.coq_eval('cases_' + label, HEADER, terms, shard=max(10, 5 * (-(-len(ok_idx) // 32))))
+    vals = ctx.coq_eval('cases_' + label, HEADER, terms, shard=max(12, 6 * (-(-len(ok_idx) // 32))))
     dis_all, hits = [], []
     stats = ctx.notes.setdefault('model_side', {'singular': 0, 'zero_sum_exact': 0, 'dMudX_symmetric_exact': 0, 'right_inverse_checked': 0})
     for k, i in enumerate(ok_idx):
-        dis, info = compare(cases[i], impls[i], vals[5 * k:5 * k + 5])
+        dis, info = compare(cases[i], impls[i], vals[6 * k:6 * k + 5])
+        impls[i]['arr_model'] = vals[6 * k + 5]
         for (site, d) in dis:
             dis_all.append((cases[i], site, d))
         stats['singular'] += int(info['singular'])
@@ -1128,6 +1331,28 @@ def database_sampling(ctx, quick):
                     ctx.violation('diffusivity_path', {'site': SITE_T, 'cls': 'database ' + name}, {'kind': 'input', 'database_point': pt, 'observed': D.tolist()},
                                   '%s at x=%r T=%r: interdiffusivity %r, diffusivities of the solutes %r' % (name, x, T, D.tolist(), want.tolist()))
             if k == 0:
+                # array calls with closely spaced points (fine temperature ramp, slowly drifting composition, a repeated
+                # point): every entry must be what the scalar call returns for that point
+                xa = [list(x), list(x), list(x), [x[0] * (1 + 5e-7)] + list(x[1:]), list(x)]
+                Ta = [T, T + 0.004, T + 0.008, T + 0.008, T]
+                try:
+                    Darr = np.array(th.getInterdiffusivity([v[0] for v in xa] if nsol == 1 else xa, Ta, phase=phase_arg), float).reshape(len(Ta), nsol, nsol)
+                    tarr = np.array(th.getTracerDiffusivity([v[0] for v in xa] if nsol == 1 else xa, Ta, phase=phase_arg), float).reshape(len(Ta), nsol + 1)
+                    for q in range(len(Ta)):
+                        Dq = np.atleast_2d(th.getInterdiffusivity(xa[q] if nsol > 1 else xa[q][0], Ta[q], phase=phase_arg))
+                        tq = np.atleast_1d(th.getTracerDiffusivity(xa[q] if nsol > 1 else xa[q][0], Ta[q], phase=phase_arg))
+                        for nm, A_, B_ in (('getInterdiffusivity', Darr[q], Dq), ('getTracerDiffusivity', tarr[q], tq)):
+                            e_ = float(np.max(np.abs(A_ - B_)) / np.max(np.abs(B_)))
+                            st['max_rel_array_vs_scalar'] = max(st.get('max_rel_array_vs_scalar', 0.0), e_)
+                            if e_ > 1e-8:
+                                ctx.violation('array_pointwise', {'site': SITE_T, 'cls': 'database ' + name + ' ' + nm},
+                                              {'kind': 'input', 'database_point': {'system': name, 'x': xa, 'T': Ta, 'phase': phase_arg, 'entry': q},
+                                               'observed': np.array(A_).tolist(), 'expected': np.array(B_).tolist()},
+                                              '%s: %s(x=%r, T=%r)[%d] = %r but the scalar call at x=%r, T=%r gives %r (relative difference %.3g)'
+                                              % (name, nm, xa, Ta, q, np.array(A_).tolist(), xa[q], Ta[q], np.array(B_).tolist(), e_))
+                except Exception as e:
+                    ctx.violation('no_internal_error', {'site': SITE_T, 'cls': 'database array call ' + name}, {'kind': 'input', 'database_point': pt, 'error': str(e)[:300]},
+                                  '%s: array call of the diffusivity getters raised %s: %s' % (name, err_enum(e), str(e)[:200]))
                 ctx.sample({'database': name, 'x': x, 'T': T, 'dMudX_user_order': Hu.tolist(), 'finite_difference': Hfd.tolist(),
                             'interdiffusivity': D.tolist(), 'eigenvalues': [float(z.real) for z in evD]}, limit=12)
 
@@ -1203,14 +1428,16 @@ def replay(ctx, obj):
         return 1
     c = unhexcase(obj['input'])
     im = run_impl(c)
+    dis = []
+    if im['err'] is None and finite(im):
+        vals = ctx.coq_eval('replay', HEADER, model_terms(c, im))
+        dis, info = compare(c, im, vals[:5])
+        im['arr_model'] = vals[5]
     hits = oracle(c, im)
     for h in hits:
         print('replay:', h)
-    if im['err'] is None and finite(im):
-        vals = ctx.coq_eval('replay', HEADER, model_terms(c, im))
-        dis, info = compare(c, im, vals)
-        for d in dis:
-            print('replay: correspondence:', d)
-        hits = hits + dis
+    for d in dis:
+        print('replay: correspondence:', d)
+    hits = hits + dis
     print('replay: %d violations on this input' % len(hits))
     return 1 if hits else 0
